@@ -1,14 +1,12 @@
 (* BaseP: number-base formats and two's complement (C13 base_display). *)
 From Coq Require Import ZArith NArith List Bool Lia.
-From NP Require Import Model.PyBase Model.Digits Model.C13Tables Model.NumFormat Proofs.DigitsP.
+From NP Require Import Model.PyBase Model.Digits Model.C13Tables Model.NumFormat Proofs.DigitsP Proofs.B64P.
 Import ListNotations.
 Open Scope Z_scope.
 Ltac Zify.zify_post_hook ::= Z.to_euclidean_division_equations.
 
 Lemma bchar_not_minus d : 0 <= d < 36 -> (bchar d =? c_min)%N = false.
-Proof.
-  intros H. unfold bchar, c_min. apply N.eqb_neq. destruct (Z.ltb_spec d 10); lia.
-Qed.
+Proof. intros H. unfold bchar, c_min. apply N.eqb_neq. destruct (Z.ltb_spec d 10); lia. Qed.
 
 Lemma bdigs_not_minus b : 2 <= b <= 36 -> forall w n, Forall (fun c => (c =? c_min)%N = false) (bdigs b w n).
 Proof.
@@ -28,35 +26,116 @@ Proof.
 Qed.
 
 Lemma readback_base_plain b s : Forall (fun c => (c =? c_min)%N = false) s -> readback_base b s = bval b s.
-Proof. intros H. destruct s as [|c r]; [reflexivity|]. cbn [readback_base]. rewrite (Forall_inv H). reflexivity. Qed.
-
-Lemma to_base_nonempty b n : 2 <= b -> 0 < n -> to_base b n <> [].
 Proof.
-  intros Hb Hn E. apply (f_equal zlen) in E. rewrite to_base_length in E by assumption.
-  pose proof (nbdig_spec b n Hb Hn). cbn in E. lia.
+  intros H. destruct s as [|c r]; [reflexivity|]. cbn [readback_base]. rewrite (Forall_inv H). reflexivity.
 Qed.
 
 (* the integer the base formats display: Python round() of the binary value, half to even *)
 Definition base_shown (is_int : bool) (d : dec) : Z :=
   let '(vn, vd) := value_rat is_int (dmant d) (dexp d) in rne_div vn vd.
 
+Lemma base_shown_nonneg is_int d : 0 <= base_shown is_int d.
+Proof.
+  unfold base_shown. pose proof (value_rat_pos is_int (dmant d) (dexp d)) as H.
+  destruct (value_rat is_int (dmant d) (dexp d)) as [vn vd]. destruct H as [H1 H2].
+  apply rne_div_spec; assumption.
+Qed.
+
+(* sign-and-magnitude notation: every case except two's complement of a negative number *)
 Lemma base_minus_lemma is_int d base places minus :
-  2 <= base <= 36 -> (minus = true \/ twos_base base = false \/ dneg d = false \/ base_shown is_int d <= 0) ->
+  2 <= base <= 36 ->
+  (minus = true \/ twos_base base = false \/ dneg d = false \/ base_shown is_int d = 0) ->
   let v := base_shown is_int d in
   let s := format_base is_int d base places minus in
   readback_base base s = (if dneg d then - v else v) /\
-  zlen (if (0 <? v) && dneg d then tl s else s) = Z.max places (if v <=? 0 then 1 else nbdig base v) /\
-  (0 <= v).
+  (let digits := if (0 <? v) && dneg d then tl s else s in
+   zlen digits = Z.max places (if v <=? 0 then 1 else nbdig base v)).
 Proof.
-  intros Hb Hcase v s. unfold s, format_base. unfold v, base_shown in *.
-  destruct (value_rat is_int (dmant d) (dexp d)) as [vn vd] eqn:Ev.
-  assert (Hv0 : 0 <= rne_div vn vd).
-  { unfold value_rat in Ev. destruct (dmant d <=? 0) eqn:E0; [inversion Ev; subst; cbn; lia|].
-    apply Z.leb_gt in E0.
-    unfold rne_div. assert (0 <= vn / vd).
-    { destruct (Z_lt_le_dec vd 0).
-      - destruct (Z_le_gt_dec vn 0); [apply Z.div_le_upper_bound_neg_helper || idtac|idtac]; 
-        admit_placeholder. 
-      - apply Z.div_pos || idtac; admit_placeholder. }
-    destruct ((vd <? 2 * (vn mod vd)) || (2 * (vn mod vd) =? vd) && Z.odd (vn / vd)); lia. }
-Abort.
+  intros Hb Hcase v s. pose proof (base_shown_nonneg is_int d) as Hv0. fold v in Hv0.
+  unfold s, format_base. unfold v, base_shown in *.
+  destruct (value_rat is_int (dmant d) (dexp d)) as [vn vd].
+  set (w := rne_div vn vd) in *.
+  destruct (Z.leb_spec w 0) as [Hz|Hpos].
+  - assert (w = 0) by lia. replace (0 <? w) with false by (symmetry; apply Z.ltb_ge; lia). cbn [andb].
+    split.
+    + rewrite readback_base_plain by (apply zfill_not_minus; repeat constructor).
+      rewrite zfill_val. cbn. destruct (dneg d); lia.
+    + rewrite zfill_length. reflexivity.
+  - replace (0 <? w) with true by (symmetry; apply Z.ltb_lt; lia). cbn [andb].
+    assert (Hplain : readback_base base (zfill places (to_base base w)) = w /\
+                     zlen (zfill places (to_base base w)) = Z.max places (nbdig base w)).
+    { split.
+      - rewrite readback_base_plain by (apply zfill_not_minus, to_base_not_minus; assumption).
+        rewrite zfill_val, to_base_val by lia. reflexivity.
+      - rewrite zfill_length, to_base_length by lia. reflexivity. }
+    destruct (negb minus && twos_base base) eqn:Et.
+    + apply andb_prop in Et. destruct Et as [Em Etb]. apply negb_true_iff in Em.
+      destruct Hcase as [H|[H|[H|H]]]; try congruence; try lia.
+      rewrite H. exact Hplain.
+    + destruct (dneg d).
+      * split.
+        -- cbn [readback_base]. rewrite N.eqb_refl. rewrite zfill_val, to_base_val by lia. reflexivity.
+        -- cbn [tl]. apply Hplain.
+      * exact Hplain.
+Qed.
+
+(* two's complement of a negative number: bases 2, 8, 16 *)
+Lemma log2_up_le v : 0 < v -> v <= 2 ^ Z.log2_up v.
+Proof.
+  intros Hv. destruct (Z.eq_dec v 1) as [->|]; [cbn; lia|].
+  pose proof (Z.log2_up_spec v ltac:(lia)). lia.
+Qed.
+
+Lemma twos_value v : 0 < v ->
+  let nbits := Z.max 32 (Z.log2_up v + 1) in
+  let t := 2 ^ nbits - v in
+  2 ^ (nbits - 1) <= t < 2 ^ nbits /\ 32 <= nbits.
+Proof.
+  intros Hv nbits t. pose proof (log2_up_le v Hv) as Hle. pose proof (Z.log2_up_nonneg v) as Hn.
+  assert (Hnb : Z.log2_up v <= nbits - 1) by (unfold nbits; lia).
+  assert (2 ^ Z.log2_up v <= 2 ^ (nbits - 1)) by (apply Z.pow_le_mono_r; lia).
+  assert (E : 2 ^ nbits = 2 * 2 ^ (nbits - 1)).
+  { replace nbits with ((nbits - 1) + 1) at 1 by lia. apply pow_succ_b. unfold nbits. lia. }
+  unfold t. split; [lia|unfold nbits; lia].
+Qed.
+
+Lemma twos_lemma v base : 0 < v -> (base = 2 \/ base = 8 \/ base = 16) ->
+  let s := twos_complement v base in
+  let nbits := Z.max 32 (Z.log2_up v + 1) in
+  bval base s = 2 ^ nbits - v /\ readback_twos base s = - v /\ Z.log2 (bval base s) + 1 = nbits.
+Proof.
+  intros Hv Hbase s nbits.
+  pose proof (twos_value v Hv) as [[Hlo Hhi] H32]. fold nbits in Hlo, Hhi, H32.
+  set (t := 2 ^ nbits - v) in *.
+  assert (Ht : 0 < t) by (pose proof (pow_pos_b 2 (nbits - 1) ltac:(lia) ltac:(lia)); lia).
+  assert (Hval : bval base s = t).
+  { unfold s, twos_complement. fold nbits. fold t.
+    destruct (Z.eqb_spec base 2) as [->|Hn2].
+    - assert (Hlen : zlen (to_base 2 t) = nbits).
+      { rewrite to_base_length by lia. apply nbdig_unique; lia. }
+      unfold rjust. rewrite Hlen. replace (Z.to_nat (nbits - nbits)) with 0%nat by lia. cbn [repeat app].
+      apply to_base_val; lia.
+    - apply to_base_val; lia. }
+  assert (Hlog : Z.log2 t = nbits - 1).
+  { apply Z.log2_unique; [lia|]. replace (Z.succ (nbits - 1)) with nbits by lia. lia. }
+  split; [exact Hval|]. split.
+  - unfold readback_twos. rewrite Hval, Hlog. replace (nbits - 1 + 1) with nbits by lia. unfold t. lia.
+  - rewrite Hval, Hlog. lia.
+Qed.
+
+Lemma base_twos_lemma is_int d base places :
+  (base = 2 \/ base = 8 \/ base = 16) -> dneg d = true -> 0 < base_shown is_int d ->
+  let v := base_shown is_int d in
+  let s := format_base is_int d base places false in
+  readback_twos base s = - v /\ 32 <= Z.log2 (bval base s) + 1.
+Proof.
+  intros Hbase Hneg Hpos v s.
+  assert (Es : s = twos_complement v base).
+  { unfold s, format_base, v, base_shown in *.
+    destruct (value_rat is_int (dmant d) (dexp d)) as [vn vd].
+    destruct (Z.leb_spec (rne_div vn vd) 0); [lia|].
+    replace (twos_base base) with true by (unfold twos_base; destruct Hbase as [-> | [-> | ->]]; reflexivity).
+    cbn [negb andb]. rewrite Hneg. reflexivity. }
+  rewrite Es. pose proof (twos_lemma v base Hpos Hbase) as [_ [H1 H2]]. cbv zeta in H1, H2.
+  split; [exact H1|]. rewrite H2. lia.
+Qed.
